@@ -51,9 +51,53 @@ type ev map[string]any
 
 var (
 	fontCache = map[string]*dsl.Font{}
-	watchdog  = 60 * time.Second
-	settle    = 3 * time.Second
+	// a Parse of these texts takes microseconds; a call that has not returned after the watchdog time is
+	// recorded as not returned (the verdict "hang" needs two reproductions in isolation)
+	watchdog = 5 * time.Second
+	settle   = 3 * time.Second
+
+	// Hang protocol.  A call that does not return keeps its goroutines -- possibly spinning -- for ever, so on
+	// the first such call the process records the observation, flushes its output, prints a summary with
+	// "hung": true and exits; the driver starts a fresh process for the remaining cases with
+	//   C19_SKIP   = keys not to run again ("c<case id>", "d<index of a catalogue shape>"), comma separated
+	//   C19_RESUME = "<gomaxprocs>:<case id>": everything up to there has been recorded already
+	skipKeys         = map[string]bool{}
+	resumeP, resumeC int
+	openOuts         []*vio.Out
 )
+
+func newOut(path string) *vio.Out {
+	o := vio.NewOut(path)
+	openOuts = append(openOuts, o)
+	return o
+}
+
+func readHangEnv() {
+	for _, k := range strings.Split(os.Getenv("C19_SKIP"), ",") {
+		if k != "" {
+			skipKeys[k] = true
+		}
+	}
+	if r := os.Getenv("C19_RESUME"); r != "" {
+		if _, err := fmt.Sscanf(r, "%d:%d", &resumeP, &resumeC); err != nil {
+			vio.Fatal("bad C19_RESUME")
+		}
+	}
+}
+
+// hangExit ends the process after a call that did not return.
+func hangExit(key string, p, id int) {
+	for _, o := range openOuts {
+		o.Close()
+	}
+	fmt.Printf("{\"hung\":true,\"skip\":%q,\"resume\":\"%d:%d\",\"cases\":0}\n", key, p, id)
+	os.Exit(0)
+}
+
+// done tells whether the pair (gomaxprocs, case) was recorded by an earlier process of this run.
+func done(p, id int) bool {
+	return p < resumeP || (p == resumeP && id <= resumeC)
+}
 
 func font(id string) *dsl.Font {
 	if f, ok := fontCache[id]; ok {
@@ -121,7 +165,13 @@ type agg struct {
 
 var noise *dsl.Noise
 
-func runParseCases(cases []*Case, out *vio.Out, caseLog *vio.Out) {
+func runParseCases(all []*Case, out *vio.Out, caseLog *vio.Out) {
+	var cases []*Case
+	for _, c := range all {
+		if !skipKeys[fmt.Sprint("c", c.ID)] {
+			cases = append(cases, c)
+		}
+	}
 	for _, c := range cases {
 		if caseLog != nil {
 			caseLog.Emit(c)
@@ -139,6 +189,7 @@ func runParseCases(cases []*Case, out *vio.Out, caseLog *vio.Out) {
 	}
 	old := runtime.GOMAXPROCS(0)
 	hung := false
+	hungP, hungC := 0, 0
 	for _, p := range []int{1, 2, 3, 4, 8, 16, 32} {
 		if !procsSet[p] || hung {
 			continue
@@ -154,7 +205,7 @@ func runParseCases(cases []*Case, out *vio.Out, caseLog *vio.Out) {
 			for _, q := range c.Procs {
 				has = has || q == p
 			}
-			if !has {
+			if !has || done(p, c.ID) {
 				continue
 			}
 			f := font(c.Font)
@@ -196,7 +247,7 @@ func runParseCases(cases []*Case, out *vio.Out, caseLog *vio.Out) {
 					}
 				}
 				if !o.Returned {
-					hung = true
+					hung, hungP, hungC = true, p, c.ID
 				}
 				if !o.Returned || o.Leaked > 0 {
 					// do not pile up stuck calls or leaked goroutines: one observation decides,
@@ -224,6 +275,9 @@ func runParseCases(cases []*Case, out *vio.Out, caseLog *vio.Out) {
 				"err": a.err, "pmsg": a.pmsg, "stack": a.stack})
 		}
 	}
+	if hung {
+		hangExit(fmt.Sprint("c", hungC), hungP, hungC)
+	}
 }
 
 // ---- catalogue of valid descriptions -----------------------------------------------------
@@ -235,7 +289,25 @@ type desc struct {
 	strs []int // indices of string tokens
 }
 
-func explain(f *dsl.Font, tab string, ll gtab.LookupList) (text string, pmsg string) {
+// explain calls ExplainGsub/ExplainGpos under the watchdog; hung = it did not return.
+func explain(f *dsl.Font, tab string, ll gtab.LookupList) (text string, pmsg string, hung bool) {
+	type res struct{ text, pmsg string }
+	ch := make(chan res, 1)
+	go func() {
+		t, p := explainCall(f, tab, ll)
+		ch <- res{t, p}
+	}()
+	timer := time.NewTimer(watchdog)
+	defer timer.Stop()
+	select {
+	case r := <-ch:
+		return r.text, r.pmsg, false
+	case <-timer.C:
+		return "", "", true
+	}
+}
+
+func explainCall(f *dsl.Font, tab string, ll gtab.LookupList) (text string, pmsg string) {
 	defer func() {
 		if r := recover(); r != nil {
 			pmsg = fmt.Sprint(r)
@@ -256,14 +328,25 @@ func catalogue(shapes []dsl.Shape) (res []*desc, skipped int) {
 	seen := map[string]bool{}
 	for i := range shapes {
 		s := &shapes[i]
+		key := fmt.Sprint("d", i)
+		if skipKeys[key] {
+			skipped++
+			continue
+		}
 		f := font(s.Font)
-		text, pmsg := explain(f, s.Tab, dsl.Instantiate(s, vio.Seed()))
+		text, pmsg, hung := explain(f, s.Tab, dsl.Instantiate(s, vio.Seed()))
+		if hung {
+			hangExit(key, resumeP, resumeC) // the round-trip mode records this shape; here it is only left out
+		}
 		if pmsg != "" || seen[s.Font+text] {
 			skipped++
 			continue
 		}
 		seen[s.Font+text] = true
 		o := dsl.RunParse(f.F, text, watchdog, settle)
+		if !o.Returned {
+			hangExit(key, resumeP, resumeC)
+		}
 		if !o.OK {
 			skipped++
 			continue
@@ -461,8 +544,8 @@ func faults(casesPath, shapesPath, outPath string) {
 				Origin: "fault case " + string(fcj) + ": " + origins[k]})
 		}
 	}
-	out := vio.NewOut(outPath)
-	caseLog := vio.NewOut(outPath + ".cases")
+	out := newOut(outPath)
+	caseLog := newOut(outPath + ".cases")
 	runParseCases(cases, out, caseLog)
 	out.Close()
 	caseLog.Close()
@@ -572,8 +655,8 @@ func sweep(shapesPath, outPath string) {
 			add(f, dsl.Soup(rng), "random words of the language")
 		}
 	}
-	out := vio.NewOut(outPath)
-	caseLog := vio.NewOut(outPath + ".cases")
+	out := newOut(outPath)
+	caseLog := newOut(outPath + ".cases")
 	runParseCases(cases, out, caseLog)
 	out.Close()
 	caseLog.Close()
@@ -588,7 +671,7 @@ func parseOnce(f *sfnt.Font, text string) dsl.Outcome {
 
 // Explain iterates over Go maps, so one shape is explained and parsed back several times (more often
 // for the large shapes); the first repetition that is not a faithful round trip is the one recorded.
-func runRT(c *Case, out *vio.Out) {
+func runRT(c *Case, out *vio.Out) (hung bool) {
 	s := c.Shape
 	f := font(s.Font)
 	ll := dsl.Instantiate(s, c.Seed)
@@ -601,14 +684,19 @@ func runRT(c *Case, out *vio.Out) {
 	}
 	var e ev
 	for r := 0; r < reps; r++ {
-		text, xpanic := explain(f, s.Tab, ll)
+		text, xpanic, xhung := explain(f, s.Tab, ll)
 		e = ev{"ev": "rt", "case": c.ID, "shape": s, "text": text, "xpanic": trim(xpanic, 300), "note": note,
-			"before": before, "after": []any{}, "perr": "", "ppanic": "", "returned": true, "leaks": 0, "rep": r,
+			"before": before, "after": []any{}, "perr": "", "ppanic": "", "returned": !xhung, "leaks": 0, "rep": r,
 			"bfmt": bfmt, "afmt": [][]int{}}
+		if xhung {
+			hung = true
+			break
+		}
 		if xpanic != "" {
 			break
 		}
 		o := parseOnce(f.F, text)
+		hung = !o.Returned
 		e["returned"] = o.Returned
 		e["leaks"] = o.Leaked
 		e["ppanic"] = trim(o.PanicMsg, 300)
@@ -637,21 +725,27 @@ func runRT(c *Case, out *vio.Out) {
 		}
 	}
 	out.Emit(e)
+	return hung
 }
 
 func rt(shapesPath, outPath string) {
 	shapes := vio.ReadLines[dsl.Shape](shapesPath)
-	out := vio.NewOut(outPath)
-	caseLog := vio.NewOut(outPath + ".cases")
+	out := newOut(outPath)
+	caseLog := newOut(outPath + ".cases")
 	si, sn := shard()
 	n := 0
 	for i := range shapes {
 		if (i+1)%sn != si {
 			continue
 		}
+		if done(0, i+1) {
+			continue
+		}
 		c := &Case{ID: i + 1, Kind: "rt", Font: shapes[i].Font, Shape: &shapes[i], Seed: vio.Seed()}
 		caseLog.Emit(c)
-		runRT(c, out)
+		if runRT(c, out) {
+			hangExit("", 0, c.ID)
+		}
 		n++
 	}
 	out.Close()
@@ -673,7 +767,7 @@ type meanCase struct {
 }
 
 // runNum parses a text with a boundary number at some place of the grammar and records the canonical result.
-func runNum(c *Case, out *vio.Out) {
+func runNum(c *Case, out *vio.Out) (hung bool) {
 	f := font(c.Font)
 	o := parseOnce(f.F, c.Text)
 	got := []any{}
@@ -686,10 +780,11 @@ func runNum(c *Case, out *vio.Out) {
 	}
 	out.Emit(ev{"ev": "num", "case": c.ID, "nk": c.Idx[0], "nl": c.Idx[1], "font": c.Font, "text": c.Text,
 		"returned": o.Returned, "leaks": o.Leaked, "perr": trim(o.Err, 300), "ppanic": pp, "got": got})
+	return !o.Returned
 }
 
 // runErrLine parses an erroneous text and records the line and the token the error names.
-func runErrLine(c *Case, out *vio.Out) {
+func runErrLine(c *Case, out *vio.Out) (hung bool) {
 	f := font(c.Font)
 	o := parseOnce(f.F, c.Text)
 	pp := trim(o.PanicMsg, 300)
@@ -700,9 +795,10 @@ func runErrLine(c *Case, out *vio.Out) {
 	out.Emit(ev{"ev": "errline", "case": c.ID, "et": c.Idx[0], "ep": c.Idx[1], "ex": c.Idx[2], "font": c.Font,
 		"text": c.Text, "returned": o.Returned, "leaks": o.Leaked, "perr": trim(o.Err, 300), "ppanic": pp,
 		"line": line, "item": item})
+	return !o.Returned
 }
 
-func runMean(c *Case, out *vio.Out) {
+func runMean(c *Case, out *vio.Out) (hung bool) {
 	f := font(c.Font)
 	o := parseOnce(f.F, c.Text)
 	got := []any{}
@@ -716,23 +812,24 @@ func runMean(c *Case, out *vio.Out) {
 	}
 	out.Emit(ev{"ev": "mean", "case": c.ID, "mid": c.Mid, "font": c.Font, "text": c.Text, "returned": o.Returned,
 		"leaks": o.Leaked, "perr": trim(o.Err, 300), "ppanic": pp, "got": got, "note": note})
+	return !o.Returned
 }
 
-func runText(c *Case, out *vio.Out) {
+func runText(c *Case, out *vio.Out) bool {
 	switch c.Kind {
 	case "num":
-		runNum(c, out)
+		return runNum(c, out)
 	case "errline":
-		runErrLine(c, out)
+		return runErrLine(c, out)
 	default:
-		runMean(c, out)
+		return runMean(c, out)
 	}
 }
 
 func mean(casesPath, outPath string) {
 	mcs := vio.ReadLines[meanCase](casesPath)
-	out := vio.NewOut(outPath)
-	caseLog := vio.NewOut(outPath + ".cases")
+	out := newOut(outPath)
+	caseLog := newOut(outPath + ".cases")
 	for i, m := range mcs {
 		c := &Case{ID: i + 1, Kind: "mean", Font: m.Font, Text: m.Text, Mid: m.Mid}
 		switch {
@@ -741,8 +838,13 @@ func mean(casesPath, outPath string) {
 		case m.Et > 0:
 			c.Kind, c.Idx = "errline", []int{m.Et, m.Ep, m.Ex}
 		}
+		if done(0, c.ID) {
+			continue
+		}
 		caseLog.Emit(c)
-		runText(c, out)
+		if runText(c, out) {
+			hangExit("", 0, c.ID)
+		}
 	}
 	out.Close()
 	caseLog.Close()
@@ -758,7 +860,7 @@ func one(casePath, outPath string) {
 	if err := json.Unmarshal(b, &c); err != nil {
 		vio.Fatal(err)
 	}
-	out := vio.NewOut(outPath)
+	out := newOut(outPath)
 	switch c.Kind {
 	case "parse":
 		runParseCases([]*Case{&c}, out, nil)
@@ -776,6 +878,7 @@ func main() {
 	if len(os.Args) < 4 {
 		vio.Fatal("usage: c19 rt|mean|faults|sweep|one ...")
 	}
+	readHangEnv()
 	if ms := envInt("C19_WATCHDOG_MS", 0); ms > 0 {
 		watchdog = time.Duration(ms) * time.Millisecond
 	}
